@@ -823,6 +823,43 @@ def falsify(ctx, hints):
                 fails += falsify_blaze_case(im, rand_labels(rng, n), rand_labels(rng, n))
         if len(fails) > 20:
             break
+    # every 4x4 matrix that cannot be peeled (each row and each column has at least two incidences) and has a perfect
+    # matching: the smallest cores on which the inner triangularisation needs several sweeps (the quick tier's exhaustive
+    # scope is 3x3, on which every defect of the inner heuristic is invisible)
+    if not ctx.thorough:
+        for im in all_matrices(4):
+            if all(sum(r) >= 2 for r in im) and all(sum(r[j] for r in im) >= 2 for j in range(4)) and has_perfect_matching(im):
+                info["blaze_checks"] += 1
+                info["cores_4x4"] = info.get("cores_4x4", 0) + 1
+                fails += falsify_blaze_case(im, rand_labels(rng, 4), rand_labels(rng, 4))
+                if len(fails) > 20:
+                    break
+    # random unpeelable cores of size 5..9 (two chained simultaneous blocks with moderately sparse interiors, rows and columns
+    # permuted, every row and column with at least two incidences)
+    for _ in range(ctx.scale(400, 6000)):
+        n = rng.randint(5, 9)
+        b1 = rng.randint(2, n - 2)
+        im = [[False] * n for _ in range(n)]
+        for lo, hi in ((0, b1), (b1, n)):
+            m_ = hi - lo
+            p_ = _perm(rng, m_); q_ = _perm(rng, m_)
+            for a in range(m_):
+                im[lo + a][lo + p_[a]] = True
+                im[lo + a][lo + p_[(a + 1) % m_]] = True        # a cycle through the block: every row/column >= 2
+                for c in range(m_):
+                    if rng.random() < 0.25:
+                        im[lo + a][lo + c] = True
+        for a in range(b1, n):
+            for c in range(b1):
+                if rng.random() < 0.3:
+                    im[a][c] = True
+        rp = _perm(rng, n); cp = _perm(rng, n)
+        im = [[im[rp[i]][cp[j]] for j in range(n)] for i in range(n)]
+        info["blaze_checks"] += 1
+        info["random_cores"] = info.get("random_cores", 0) + 1
+        fails += falsify_blaze_case(im, rand_labels(rng, n), rand_labels(rng, n))
+        if len(fails) > 20:
+            break
     for _ in range(ctx.scale(300, 8000)):
         n = rng.randint(4, 30)
         im = gen_matrix(rng, n, rng.choice(["triangular", "block", "block", "dense", "sparse", "sparse"]))
